@@ -271,7 +271,12 @@ impl Monitor for C08 {
                             // smallest L with ceil(L*n/d) > u64::MAX, i.e. L*n > (2^64 - 1) * d
                             let lim = model::bu(u64::MAX as u128) * &d;
                             let l_over = &lim / &n + BigUint::from(1u8);
-                            for (which, lbig) in [("over", l_over.clone()), ("fit", &l_over - BigUint::from(1u8))] {
+                            // ... and the liquidity whose exact cost is just above 2^128 (a cost that would read as a small number
+                            // if only its low 64 or 128 bits were kept)
+                            let lim128 = model::bu(u128::MAX) * &d;
+                            let l_wrap = &lim128 / &n + BigUint::from(1u8);
+                            let l_wrap2 = &l_wrap + (&d / &n) * BigUint::from(1000u32) + BigUint::from(7u8);
+                            for (which, lbig) in [("over", l_over.clone()), ("fit", &l_over - BigUint::from(1u8)), ("wrap128", l_wrap), ("wrap128+", l_wrap2)] {
                                 let Some(l) = model::to_u128(&lbig) else { continue };
                                 if l == 0 { continue }
                                 let mut d2 = v.ix.data.clone();
